@@ -394,6 +394,8 @@ func c19Task(w *C19World, res *c19Result) {
 			res.viol = &Violation{Class: "model-mismatch", Kind: op.Kind, OpIdx: i, Detail: what, Want: want, Got: got}
 		}
 	}
+	var heldJSON []heldBytes
+	var heldData []heldStrings
 	for i, op := range w.Ops {
 		if res.viol != nil {
 			break
@@ -412,6 +414,17 @@ func c19Task(w *C19World, res *c19Result) {
 				break
 			}
 			c19CheckSet(set, m, i, op, fail)
+			d := set.Data()
+			heldData = append(heldData, heldStrings{d, fmt.Sprint(d), i})
+			if len(heldData) > 6 {
+				heldData = heldData[1:]
+			}
+			for _, h := range heldData {
+				if fmt.Sprint(h.d) != h.s && res.viol == nil {
+					res.viol = &Violation{Class: "unstable-value", Kind: op.Kind, OpIdx: i,
+						Detail: fmt.Sprintf("the slice returned by Data() after operation %d changed after operation %d", h.op, i), Want: h.s, Got: fmt.Sprint(h.d)}
+				}
+			}
 			continue
 		}
 		switch op.Kind {
@@ -562,14 +575,39 @@ func c19Task(w *C19World, res *c19Result) {
 			break
 		}
 		if res.viol == nil {
-			c19CheckMap(cm, m, i, op, fail)
+			if b := c19CheckMap(cm, m, i, op, fail); b != nil {
+				heldJSON = append(heldJSON, heldBytes{b, string(b), i})
+				if len(heldJSON) > 6 {
+					heldJSON = heldJSON[1:]
+				}
+			}
+		}
+		// the JSON handed out after earlier operations is the caller's: it must
+		// not change when the container is used again
+		for _, h := range heldJSON {
+			if string(h.b) != h.s && res.viol == nil {
+				res.viol = &Violation{Class: "unstable-value", Kind: op.Kind, OpIdx: i,
+					Detail: fmt.Sprintf("the JSON returned after operation %d changed after operation %d", h.op, i), Want: h.s, Got: string(h.b)}
+			}
 		}
 	}
 	res.hash = fnv(0, m.text())
 }
 
-// c19CheckMap compares every observable of the container with the model.
-func c19CheckMap(cm cmap, m *model, i int, op C19Op, fail func(int, C19Op, string, string, string)) {
+type heldBytes struct {
+	b  []byte
+	s  string
+	op int
+}
+type heldStrings struct {
+	d  []string
+	s  string
+	op int
+}
+
+// c19CheckMap compares every observable of the container with the model. It
+// returns the JSON bytes the container handed out (nil: none / not judged).
+func c19CheckMap(cm cmap, m *model, i int, op C19Op, fail func(int, C19Op, string, string, string)) []byte {
 	if got := cm.Len(); got != len(m.e) {
 		fail(i, op, "Len", strconv.Itoa(len(m.e)), strconv.Itoa(got))
 	}
@@ -600,33 +638,33 @@ func c19CheckMap(cm cmap, m *model, i int, op C19Op, fail func(int, C19Op, strin
 	}
 	b, err := cm.JSON()
 	if err == errNoJSON {
-		return
+		return nil
 	}
 	if err != nil {
 		fail(i, op, "MarshalJSON error", "nil", err.Error())
-		return
+		return nil
 	}
 	if !json.Valid(b) {
 		fail(i, op, "MarshalJSON is not valid JSON", "", string(b))
-		return
+		return b
 	}
 	dec := json.NewDecoder(bytes.NewReader(b))
 	tok, _ := dec.Token()
 	if d, ok := tok.(json.Delim); !ok || d != '{' {
 		fail(i, op, "MarshalJSON is not an object", "{", string(b))
-		return
+		return b
 	}
 	var got []modelEntry
 	for dec.More() {
 		kt, err := dec.Token()
 		if err != nil {
 			fail(i, op, "MarshalJSON token", "", err.Error())
-			return
+			return b
 		}
 		var v struct{ Value string }
 		if err := dec.Decode(&v); err != nil {
 			fail(i, op, "MarshalJSON value", "", err.Error())
-			return
+			return b
 		}
 		ks, _ := kt.(string)
 		got = append(got, modelEntry{keyIdx(ks), valID(v.Value)})
@@ -634,6 +672,7 @@ func c19CheckMap(cm cmap, m *model, i int, op C19Op, fail func(int, C19Op, strin
 	if fmt.Sprint(got) != fmt.Sprint(m.e) {
 		fail(i, op, "MarshalJSON keys/values/order", fmt.Sprint(m.e), fmt.Sprint(got)+" "+string(b))
 	}
+	return b
 }
 
 func c19CheckSet(s *jschema.StringSet, m *model, i int, op C19Op, fail func(int, C19Op, string, string, string)) {
